@@ -149,6 +149,8 @@ def gecko_writer_ok(F, wb):
                 segs = [seg(i["args"][0])]       # Vec::from([u8; 4])
             elif i.get("k") == "Call" and re.search(r"Vec(::<.*>)?::(new|with_capacity)$", declared(i) or i.get("path") or ""):
                 segs = []
+            elif i.get("k") == "MethodCall" and i["method"] == "concat" and not i.get("args") and strip(i["recv"]).get("k") == "Array":
+                segs = [seg(x) for x in strip(i["recv"]).get("elems", [])]      # `[a.as_slice(), b.as_slice()].concat()`
             if segs is None:
                 continue
             bid = n["pat"]["id"]
